@@ -4,6 +4,8 @@ import (
 	"bytes"
 	"encoding/json"
 	"fmt"
+	"github.com/PowerDNS/lightningstream/snapshot"
+	"github.com/PowerDNS/lightningstream/syncer"
 
 	"github.com/PowerDNS/lightningstream/lmdbenv/header"
 
@@ -197,6 +199,21 @@ func runC14(c runner.Case, env *runner.Env) (res runner.Result) {
 				res.Violate("accept-reject-differs", fmt.Sprintf("documented-format reader err=%v, header.Parse err=%v, header.Skip err=%v", ierr, perr, serr), wit)
 				continue
 			}
+			// the same byte string as a STORED value met by the merge routine (Merge: the key is in the snapshot too,
+			// Clean: the key vanished from the source): a value the documented format rejects must be refused with an
+			// error by both, never kept, overwritten or turned into a marker as if it had been read
+			if len(b) > 0 {
+				in := snapshot.KV{Key: []byte("k"), Value: []byte("incoming"), TimestampNano: 1<<62 + 5}
+				_, merr := mergeReal(b, in, Cfg{Format: 3})
+				cout, cerr := cleanReal(b)
+				if ierr != nil && (merr == nil || cerr == nil) {
+					res.Violate("malformed-stored-value-misread", fmt.Sprintf("stored value rejected by the documented format (%v): Merge err=%v, Clean err=%v (Clean result %x)", ierr, merr, cerr, head(cout, 32)), wit)
+				}
+				if ierr == nil && (merr != nil || cerr != nil) {
+					res.Violate("wellformed-stored-value-refused", fmt.Sprintf("stored value accepted by the documented format: Merge err=%v, Clean err=%v", merr, cerr), wit)
+				}
+				res.Count("stored_values_through_merge_and_clean", 1)
+			}
 			if ierr != nil {
 				res.Add("reject_reasons", ierr.Error())
 				continue
@@ -295,4 +312,19 @@ func mustJSON(v any) []byte {
 		panic(err)
 	}
 	return b
+}
+
+// cleanReal calls the real NativeIterator.Clean for a stored value.
+func cleanReal(stored []byte) ([]byte, error) {
+	d := snapshot.NewDBISize(64)
+	d.SetName("d")
+	it, err := syncer.NewNativeIterator(3, 1, d, header.Timestamp(1<<62), lsTxn, 0)
+	if err != nil {
+		return nil, err
+	}
+	out, err := it.Clean(stored)
+	if err != nil {
+		return nil, err
+	}
+	return append([]byte{}, out...), nil
 }
